@@ -1,0 +1,87 @@
+//! Verification hooks, compiled only with `--cfg nucleo_verif`.
+//!
+//! * `point(site, arg)`: a yield / trace point placed in front of the atomic
+//!   operations of the item vector and at the phase boundaries of `tick` and the
+//!   worker run. It calls a harness-installed callback (which may block to
+//!   impose a schedule); without a callback it does nothing.
+//! * a facade over the crate-private item vector and the parallel sort.
+#![allow(missing_docs)]
+
+use std::sync::atomic::AtomicBool;
+use std::sync::{Arc, RwLock};
+
+use crate::{boxcar, Utf32String};
+
+pub type Callback = dyn Fn(&'static str, u64) + Send + Sync;
+
+static CALLBACK: RwLock<Option<Arc<Callback>>> = RwLock::new(None);
+
+pub fn set_callback(cb: Option<Arc<Callback>>) {
+    *CALLBACK.write().unwrap() = cb;
+}
+
+#[inline]
+pub(crate) fn point(site: &'static str, arg: u64) {
+    let cb = CALLBACK.read().unwrap().clone();
+    if let Some(cb) = cb {
+        cb(site, arg)
+    }
+}
+
+/// The crate-private lock-free item vector.
+pub struct Vec<T>(boxcar::Vec<T>);
+
+impl<T> Vec<T> {
+    pub fn with_capacity(capacity: u32, columns: u32) -> Self {
+        Vec(boxcar::Vec::with_capacity(capacity, columns))
+    }
+    pub fn push(&self, value: T, fill_columns: impl FnOnce(&T, &mut [Utf32String])) -> u32 {
+        self.0.push(value, fill_columns)
+    }
+    pub fn extend<I>(&self, values: I, fill_columns: impl Fn(&T, &mut [Utf32String]))
+    where
+        I: IntoIterator<Item = T> + ExactSizeIterator,
+    {
+        self.0.extend(values, fill_columns)
+    }
+    pub fn get(&self, index: u32) -> Option<crate::Item<'_, T>> {
+        self.0.get(index)
+    }
+    pub fn count(&self) -> u32 {
+        self.0.count()
+    }
+    pub fn columns(&self) -> u32 {
+        self.0.columns()
+    }
+    /// `snapshot(start)` collected: `(index, item if published)` and the end of the snapshot
+    pub fn snapshot(&self, start: u32) -> (std::vec::Vec<(u32, Option<crate::Item<'_, T>>)>, u32) {
+        let iter = unsafe { self.0.snapshot(start) };
+        let end = iter.end();
+        (iter.collect(), end)
+    }
+}
+
+impl<T: Send + Sync> Vec<T> {
+    /// `par_snapshot(start)` driven by the current rayon pool, collected in index order
+    pub fn par_snapshot(&self, start: u32) -> (std::vec::Vec<(u32, bool)>, u32) {
+        use rayon::prelude::*;
+        let iter = unsafe { self.0.par_snapshot(start) };
+        let end = iter.end();
+        let mut out: std::vec::Vec<(u32, bool)> = iter.map(|(i, item)| (i, item.is_some())).collect();
+        out.sort();
+        (out, end)
+    }
+}
+
+/// `Location::of(index)` as `(bucket, bucket_len, entry)`
+pub fn location_of(index: u32) -> (u32, u32, u32) {
+    boxcar::verif_location_of(index)
+}
+
+pub fn par_quicksort<T, F>(v: &mut [T], is_less: F, canceled: &AtomicBool) -> bool
+where
+    T: Send,
+    F: Fn(&T, &T) -> bool + Sync,
+{
+    crate::par_sort::par_quicksort(v, is_less, canceled)
+}
